@@ -6,6 +6,10 @@ package gomatrixserverlib
 
 import "github.com/matrix-org/gomatrixserverlib/spec"
 
+// VerifInternals: the real accessor is in place (overlay/root-stub says false
+// when it does not fit the tree under test).
+const VerifInternals = true
+
 // VerifAllower exposes the unexported allowerContext so that one checker can
 // be reused across several events the way state resolution does.
 type VerifAllower struct{ a *allowerContext }
